@@ -96,6 +96,10 @@ def split_frames(buf: bytes) -> tuple[list[tuple[int, bytes, bool]], bytes]:
     return out, buf[pos:]
 
 
+class _Skip(Exception):
+    pass
+
+
 class Peer(memnet.ScriptPeer):
     """Scripted far end: does the HTTP upgrade, then speaks frames."""
 
@@ -125,8 +129,19 @@ class Peer(memnet.ScriptPeer):
                     if line.lower().startswith(b"sec-websocket-key:"):
                         key = line.split(b":", 1)[1].strip()
                 acc = base64.b64encode(hashlib.sha1(key + WS_GUID).digest())
-                ext = b"Sec-WebSocket-Extensions: permessage-deflate\r\n" if w.cfg.get("compress") else b""
+                ext = b"Sec-WebSocket-Extensions: permessage-deflate\r\n" if (w.cfg.get("compress") or w.cfg.get("unasked_extension")) else b""
                 self.send(b"HTTP/1.1 101 Switching Protocols\r\nUpgrade: websocket\r\nConnection: Upgrade\r\n" + ext + b"Sec-WebSocket-Accept: " + acc + b"\r\n\r\n")
+                # a server that talks first: frames right behind the 101, each in a segment of its own, before the client has
+                # installed its websocket reader
+                def send_early(k: int) -> None:
+                    if k < w.cfg.get("early_frames", 0):
+                        self.send_frame(OP_TEXT, b"early-%d" % k)
+                        w.loop.call_soon(w.loop.call_soon, send_early, k + 1)  # two iterations apart: separate reads on the other side
+
+                w.loop.call_soon(send_early, 0)
+                if w.cfg.get("unasked_extension"):
+                    # ... and one with RSV1 set, although this client offered no extension
+                    w.loop.call_soon(lambda: self.send(bytes([0x80 | 0x40 | OP_TEXT, 7]) + b"\x2a\x49\xcd\x2d\x28\x01\x00"))
             else:
                 if b" 101 " not in head.split(b"\r\n")[0]:
                     w.handshake_failed = head
@@ -216,7 +231,17 @@ class World:
 
             async def go():
                 conn = MemConnector(lambda req, idx: (self.peer, None, None))
-                self.session = aiohttp.ClientSession(connector=conn)
+                tcs = []
+                if cfg.get("early_frames") or cfg.get("unasked_extension"):
+                    tc = aiohttp.TraceConfig()
+
+                    async def slow(*_a):
+                        for _ in range(20):
+                            await asyncio.sleep(0)  # e.g. a metrics callback: the loop runs, the peer's frames arrive
+
+                    tc.on_request_end.append(slow)
+                    tcs.append(tc)
+                self.session = aiohttp.ClientSession(connector=conn, trace_configs=tcs)
                 if cfg.get("legacy_receive_timeout"):
                     # the deprecated spelling: receive_timeout= next to timeout=ClientWSTimeout(ws_close=...)
                     import warnings
@@ -231,8 +256,22 @@ class World:
                         "http://host/ws", autoclose=cfg["autoclose"], autoping=cfg["autoping"], heartbeat=cfg["heartbeat"],
                         timeout=ClientWSTimeout(ws_receive=cfg["recv_timeout"], ws_close=cfg["close_timeout"]), compress=15 if cfg.get("compress") else 0)
                 self.our_t, self.peer_t = conn.transports[0]
+                from aiohttp import WSMsgType
 
-            loop.drive(go(), max_time=50)
+                for k in range(cfg.get("early_frames", 0)):
+                    m = await asyncio.wait_for(self.ws.receive(), 5)
+                    if m.type != WSMsgType.TEXT or m.data != "early-%d" % k:
+                        raise Violation("early-frame-lost", f"the peer sent {cfg['early_frames']} text frames right behind the 101 response; receive() #{k} returned {m!r}")
+                if cfg.get("unasked_extension"):
+                    m = await asyncio.wait_for(self.ws.receive(), 5)
+                    if m.type in (WSMsgType.TEXT, WSMsgType.BINARY):
+                        raise Violation("unnegotiated-extension-used", f"a frame with RSV1 was delivered as data ({m!r}) although this client offered no extension")
+                    raise _Skip()  # the connection is over after the protocol error: nothing more to schedule
+
+            try:
+                loop.drive(go(), max_time=50)
+            except _Skip:
+                self.skip = True
         else:
             from aiohttp import web
 
@@ -419,6 +458,8 @@ def execute(case: dict) -> tuple[bool, list[str]]:
     w = World(cfg)
     try:
         w.start()
+        if getattr(w, "skip", False):
+            return True, ["unasked-extension"]
         if w.ws is None or w.handshake_failed:
             raise Violation("handshake-failed", f"websocket handshake did not complete: {w.handshake_failed!r}")
         loop = w.loop
@@ -635,6 +676,8 @@ CONFIGS = [
     base_cfg("client", write_stall=True),
     base_cfg("server", write_stall=True),
     base_cfg("client", recv_timeout=3.0, legacy_receive_timeout=True),
+    base_cfg("client", early_frames=3),
+    base_cfg("client", unasked_extension=True),
 ]
 
 
